@@ -1353,6 +1353,16 @@ def _server_model(repo):
     rec('error', 'a handler that raises SystemExit is an error reply, not the end of the server', len(r) == 2 and r[0][1] is False
         and r[1][1] is True, 'a request whose handler raises SystemExit (an eval request running sys.exit()) must be answered by an error '
         'reply and the next request served; sent %s (%s)' % (r, how), 'SystemExit in a handler -> error reply, loop continues')
+    # the exception classes of evaluated code are arbitrary: describing one (str) may itself raise
+    def _odd(it_, a, k):
+        raise InterpRaise('E', 'unprintable', attrs={'__str_raises__': 'RuntimeError'})
+    srv, cs, how = serve([Packed(('boom', (), {})), Packed(('ping', (), {})), CLOSE], dict(H, boom=Native('boom', _odd)))
+    r = replies(cs)
+    rec('error', 'a handler raising an exception whose __str__ raises is an error reply, not the end of the server',
+        len(r) == 2 and r[0][1] is False and r[1][1] is True,
+        'a request whose handler raises an exception object that cannot be turned into a message (its __str__ raises, as a class defined '
+        'by evaluated code may) must still be answered by an error reply and the next request served; sent %s (%s)' % (r, how),
+        'unprintable exception in a handler -> error reply, loop continues')
     srv, cs, how = serve([Packed(('no_such_method', (), {})), Packed(('ping', (), {})), CLOSE], H)
     r = replies(cs)
     rec('error', 'an unknown method is an error reply, not a crash', len(r) == 2 and r[0][1] is False and r[0][0][0] == 'AttributeError'
